@@ -1,17 +1,82 @@
 /-
-  HotXL.Model.Fn.Info — builtin functions of this family (filled in as the family is modelled).
-  `table` maps a registered function name to its model; a registered name with no entry
-  here is reported by the evaluator as `Value.other "unmodelled-builtin"`.
+  HotXL.Model.Fn.Info — model of hotxlfp/formulas/information.py
 -/
-import HotXL.Model.Basic
-import HotXL.Model.Operators
+import HotXL.Model.Fn.Common
 
 namespace HotXL.Fn.Info
-open HotXL
+open HotXL HotXL.Ops HotXL.Fn
 
-/-- a builtin: evaluated arguments to a value, or a raised Python exception (as its error code) -/
-abbrev Builtin := List Value → Except Err Value
+/-- `int(number)`: truncation toward zero -/
+def truncNum : Num → Int
+  | .int i => i
+  | .flt q => if q ≥ 0 then q.floor else -((-q).floor)
 
-def table : List (String × Builtin) := []
+/-- ERROR.TYPE: the dict lookup (unhashable lists raise TypeError) -/
+def ERROR_TYPE : Builtin
+  | [.err e] => .ok (match e with
+      | .null => .num (.int 1) | .div0 => .num (.int 2) | .value => .num (.int 3) | .ref => .num (.int 4)
+      | .name => .num (.int 5) | .num => .num (.int 6) | .na => .num (.int 7) | .data => .num (.int 8)
+      | .error => .err .na)
+  | [.arr _] => .error .error
+  | [_] => .ok (.err .na)
+  | _ => .error .error
+
+def ISBLANK : Builtin
+  | [v] => .ok (.bool (match v with | .blank => true | _ => false))
+  | _ => .error .error
+def ISERR : Builtin
+  | [v] => .ok (.bool (match v with | .err .na => false | .err _ => true | _ => false))
+  | _ => .error .error
+def ISERROR : Builtin
+  | [v] => .ok (.bool (match v with | .err _ => true | _ => false))
+  | _ => .error .error
+def ISNA : Builtin
+  | [v] => .ok (.bool (match v with | .err .na => true | _ => false))
+  | _ => .error .error
+def ISEVEN : Builtin
+  | [v] => match asNumber? v with
+    | some n => .ok (.bool (truncNum n % 2 = 0))
+    | none => .ok (.err .value)
+  | _ => .error .error
+/-- ISODD returns the integer `int(number) & 1` -/
+def ISODD : Builtin
+  | [v] => match asNumber? v with
+    | some n => .ok (.num (.int (truncNum n % 2)))
+    | none => .ok (.err .value)
+  | _ => .error .error
+def ISTEXT : Builtin
+  | [v] => .ok (.bool (match v with | .str _ => true | _ => false))
+  | _ => .error .error
+def ISNONTEXT : Builtin
+  | [v] => .ok (.bool (match v with | .str _ => false | _ => true))
+  | _ => .error .error
+def ISNUMBER : Builtin
+  | [v] => .ok (.bool (match v with | .num _ => true | _ => false))
+  | _ => .error .error
+def ISLOGICAL : Builtin
+  | [v] => .ok (.bool (match v with | .bool _ => true | _ => false))
+  | _ => .error .error
+def N : Builtin
+  | [v] => .ok (match v with
+      | .err e => .err e
+      | .num n => .num n
+      | .bool b => .bool b
+      | .date us => .num (Dates.serialize us)
+      | _ => .num (.int 0))
+  | _ => .error .error
+def NA : Builtin
+  | [] => .ok (.err .na)
+  | _ => .error .error
+def T : Builtin
+  | [v] => .ok (match v with
+      | .err e => .err e
+      | .str s => .str s
+      | _ => .str [])
+  | _ => .error .error
+
+def table : List (String × Builtin) :=
+  [("ERROR.TYPE", ERROR_TYPE), ("ISBLANK", ISBLANK), ("ISERR", ISERR), ("ISERROR", ISERROR), ("ISNA", ISNA),
+   ("ISEVEN", ISEVEN), ("ISODD", ISODD), ("ISTEXT", ISTEXT), ("ISNONTEXT", ISNONTEXT), ("ISNUMBER", ISNUMBER),
+   ("ISLOGICAL", ISLOGICAL), ("N", N), ("NA", NA), ("T", T)]
 
 end HotXL.Fn.Info
